@@ -3,7 +3,8 @@
 Pipeline (spec/Paths.tla is the oracle, spec/PathsTrace.tla the trace monitor):
   1. per scenario (= one process environment: $HOME, working directory at start, testing/production
      mode) TLC explores every history of Add/Remove/Reset of mappings (absolute AND relative
-     directories), of the two privacy flags and of changes of the working directory (Chdir) within
+     directories), of the two privacy flags and of changes of the working directory (Chdir; LoseWd:
+     the directory is removed underneath the process, os.Getwd fails from then on) within
      the bounds, checks the property invariants over ALL input paths of the scenario (absolute and
      relative) in every reachable state, and dumps the labelled state graph;
   2. witness runs: each named deviation of the pinned code must make TLC FAIL an invariant
@@ -28,16 +29,17 @@ from vlib import Undecided, edge_cover, parse_action, read_ndjson
 from tlagen import tla
 
 INVARIANTS = ["TypeOK", "Total", "NoProtectedPrefix", "ShortFormUsed", "OutsideUnchanged", "OrderOnlyIfNested",
-              "RegexpGated"]
+              "RegexpGated", "LostWdHardened"]
 # deviation -> the invariant TLC must report as violated when only that deviation is enabled
 WITNESS = {"NoBoundary": "OutsideUnchanged", "ReplaceAll": "ShortFormUsed", "RawTable": "NoProtectedPrefix",
-           "StopRel": "NoProtectedPrefix", "StaleWd": "OutsideUnchanged"}
+           "StopRel": "NoProtectedPrefix", "StaleWd": "OutsideUnchanged", "LostWdRaw": "NoProtectedPrefix"}
 # class printed by the trace spec -> finding key
 KEYS = {"empty-prefix": "empty-home-prefix", "root-prefix": "root-dir-prefix",
         "home-exposed": "home-exposed-after-unregister", "prefix-without-boundary": "prefix-without-boundary",
         "inner-occurrence-rewritten": "inner-occurrence-rewritten", "panic": "panic", "length": "SafetyFiles:length",
         "privacy-flag-off-by-default": "privacy-flag-off-by-default",
-        "stale-working-directory": "stale-working-directory", "relative-path-not-hardened": "relative-path-not-hardened"}
+        "stale-working-directory": "stale-working-directory", "relative-path-not-hardened": "relative-path-not-hardened",
+        "unhardened-without-working-directory": "unhardened-without-working-directory"}
 VIAS = ["Safety", "SafetyFiles", "caller-json", "caller-logfmt", "caller-color"]
 
 
@@ -87,7 +89,7 @@ STD_SITES = ["homeA", "homeX", "homeInner", "homeWork", "homeWorkshop", "secApp"
              "cwdUp", "other", "vol", "volInner", "homeVol"]
 RX_ASSUMES = ["HasCovered", "HasShorterRel", "HasRxMatch"]
 RELWD_ASSUMES = ["HasRelCovered", "HasRelTwin", "HasRelStringPrefix", "HasRelOutside", "HasWdSensitive", "HasShorterRel",
-                 "WitnessStopRel", "WitnessStaleWd"]
+                 "WitnessStopRel", "WitnessStaleWd", "WitnessLostWd"]
 ALL_ASSUMES = ["HasCovered", "HasStringPrefix", "HasInner", "HasNested", "HasShorterRel", "HasRxMatch",
                "WitnessNoBoundary", "WitnessReplaceAll", "WitnessRawTable", "WitnessIdeal"]
 
@@ -100,7 +102,7 @@ def scenarios(ctx):
     real_site = os.path.join(scratch, "harness-src", "fam_paths.go")
     tab_acts = ["AddMap", "RemoveMap", "ResetMap", "SetFlag"]
     rx_acts = ["AddRx", "RemoveRx", "ResetRx", "SetFlag", "ResetMap"]
-    relwd_acts = ["AddMap", "RemoveMap", "SetFlag", "Chdir"]
+    relwd_acts = ["AddMap", "RemoveMap", "SetFlag", "Chdir", "LoseWd"]
     nmaps = 3 if q else 6
     std = dict(home=HOME, cwd=CWD, maps=STD_MAPS[:nmaps], rxs=STD_RXS, inputs=STD_INPUTS, sites=STD_SITES,
                assumes=ALL_ASSUMES, dirs=STD_DIRS)
@@ -132,9 +134,9 @@ def scenarios(ctx):
     # working directory "/" (daemons, containers) which the process leaves later
     res.append(dict(name="rootcwd", home=HOME, cwd="/", testing=False, maps=small_maps, rxs=[VOLRX], inputs=small_inputs,
                     sites=["secApp", "secX", "other", "cwdIn", "homeA", "homeX"],
-                    assumes=["HasCovered", "HasStringPrefix"],      # every absolute path lies under the cwd entry "/" here
+                    assumes=["HasCovered", "HasStringPrefix", "WitnessLostWd"],      # every absolute path lies under the cwd entry "/" here
                     rand=(6, 8) if q else (60, 16), dirs=["/usr", "/", "/etc"],
-                    mcs=[dict(name="tab", acts=tab_acts + ["Chdir"], maxtab=4 if q else 5, maxrx=1, maps=small_maps, rxs=[VOLRX],
+                    mcs=[dict(name="tab", acts=tab_acts + ["Chdir", "LoseWd"], maxtab=4 if q else 5, maxrx=1, maps=small_maps, rxs=[VOLRX],
                               dirs=["/usr"] if q else ["/usr", "/", "/etc"])]))
     # $HOME = the scratch directory, cwd = <scratch>/harness: the real source file of the worker
     # (<scratch>/harness-src/fam_paths.go) lies under home and shares only a string prefix with cwd;
@@ -145,9 +147,9 @@ def scenarios(ctx):
     res.append(dict(name="scratch", home=scratch, cwd=os.path.join(scratch, "harness"), testing=True, maps=sm, rxs=[VOLRX],
                     inputs=[real_site, scratch + "/harness/x.go", scratch + "x/y.go", "/opt/other/z.go", scratch + "/z.go",
                             "harness-src/fam_paths.go", "fam_paths.go"],
-                    sites=["real", "other"], assumes=["HasCovered", "HasStringPrefix", "HasNested", "HasWdSensitive"],
+                    sites=["real", "other"], assumes=["HasCovered", "HasStringPrefix", "HasNested", "HasWdSensitive", "WitnessLostWd"],
                     rand=(4, 8) if q else (40, 16), scratch=scratch, dirs=sd,
-                    mcs=[dict(name="tab", acts=tab_acts + ["Chdir"], maxtab=4, maxrx=1, maps=sm, rxs=[VOLRX],
+                    mcs=[dict(name="tab", acts=tab_acts + ["Chdir", "LoseWd"], maxtab=4, maxrx=1, maps=sm, rxs=[VOLRX],
                               dirs=sd[:2] if q else sd)]))
     for sc in res:
         for d in set(sc["dirs"] + [sc["cwd"]] + [d for mc in sc["mcs"] for d in mc.get("dirs", [])]):
@@ -194,6 +196,8 @@ def label_to_event(label, consts):
         return dict(op=name)
     if name == "Chdir":
         return dict(op="Chdir", d=consts["DirSeq"][a[0] - 1])
+    if name == "LoseWd":
+        return dict(op="LoseWd")
     if name == "SetFlag":
         return dict(op="SetFlag", f=a[0], on=a[1])
     raise Undecided("unknown action label %r" % label)
@@ -349,9 +353,12 @@ def random_behaviours(sc, rng, count, depth):
                 beh.append(dict(op="ResetRx"))
             elif c < 0.88:
                 beh.append(dict(op="SetFlag", f=rng.choice(["path", "regexp"]), on=rng.random() < 0.6))
-            elif c < 0.97:
+            elif c < 0.95:
                 wd[0] = rng.choice(sc["dirs"])
                 beh.append(dict(op="Chdir", d=B(wd[0])))
+            elif c < 0.98:
+                wd[0] = cwd                                 # (only used to draw paths "near" a directory)
+                beh.append(dict(op="LoseWd"))
             else:
                 continue
             ins = [B(rpath(dirs)) for _ in range(rng.randint(3, 8))]
@@ -529,7 +536,7 @@ def run(ctx, replay):
         return run_replay(ctx, replay)
     scs = scenarios(ctx)
     counts, nontrivial, infos = {}, set(), []
-    wmc = dict(name="w", acts=["AddMap", "RemoveMap", "ResetMap", "SetFlag", "Chdir"], maxtab=6, maxrx=1,
+    wmc = dict(name="w", acts=["AddMap", "RemoveMap", "ResetMap", "SetFlag", "Chdir", "LoseWd"], maxtab=6, maxrx=1,
                maps=STD_MAPS[:3] + REL_MAPS[:1], dirs=STD_DIRS[:2], rxs=[VOLRX])
     with concurrent.futures.ThreadPoolExecutor(max_workers=10) as tlc_pool, \
             concurrent.futures.ThreadPoolExecutor(max_workers=8) as sc_pool:
@@ -537,7 +544,8 @@ def run(ctx, replay):
         mf = [[tlc_pool.submit(model_check, ctx, sc, mc) for mc in sc["mcs"]] for sc in scs]
         sf = [sc_pool.submit(lambda sc=sc, fs=fs: run_scenario(ctx, sc, [f.result() for f in fs], tlc_pool)) for sc, fs in zip(scs, mf)]
         ctx.extra["deviation_witnesses"] = ["ASSUME WitnessNoBoundary WitnessReplaceAll WitnessRawTable WitnessIdeal (std scenario)",
-                                             "ASSUME WitnessStopRel WitnessStaleWd (std scenario, configuration relwd)"] + \
+                                             "ASSUME WitnessStopRel WitnessStaleWd WitnessLostWd (std scenario, configuration relwd; "
+                                             "WitnessLostWd also in rootcwd and scratch)"] + \
             ["TLC run: %s violates %s" % (f.result(), WITNESS[f.result()]) for f in wf]
         results = [f.result() for f in sf]
     for fs in mf:
@@ -570,13 +578,14 @@ def run(ctx, replay):
         "registered directories are clean byte strings, absolute or relative; 'lies under' is the textual (segment prefix) relation, a relative directory covers relative paths only; short forms do not start with '/' (a short form that is itself a protected directory is outside the model)",
         "regexp mappings are of the shape ^?<literal>([^/]+/)? with a literal replacement",
         "HOME and the working directory at start are set by the check; the process changes its working directory only through the Chdir events of the script, to existing directories without symbolic links (the worker records os.Getwd() after each and the trace specification compares)",
+        "LoseWd: the worker changes into a fresh directory of the check's scratch space and removes it; os.Getwd() must fail afterwards (recorded, compared by the trace specification: a platform where it does not is an Undecided run, not a violation)",
         "relative file names reach the library through Safety/SafetyFiles only: the call sites of the worker are compiled without -trimpath, so their compile-time file names are absolute",
         "map iteration order cannot be forced: every query is repeated (32/64 times) and histories with removals/re-insertions permute slot order; the allowed set is over all orders, so the check is sound either way",
         "$HOME is treated as always protected while Lprivacypath is on (literal reading of the statement); exposure after Reset/Remove is reported under its own key",
     ]
     return ctx.finish(rule="per scenario (HOME/cwd/process mode): every transition of the exhaustive TLC graphs over "
-                           "Add/Remove/Reset of mappings (absolute and relative directories), regexps, both privacy flags and "
-                           "os.Chdir executed on the library with all input paths (absolute and relative) queried after each (Safety, SafetyFiles, call sites in 3 formats, each repeated), plus "
+                           "Add/Remove/Reset of mappings (absolute and relative directories), regexps, both privacy flags, "
+                           "os.Chdir and the loss of the working directory executed on the library with all input paths (absolute and relative) queried after each (Safety, SafetyFiles, call sites in 3 formats, each repeated), plus "
                            "seeded random histories; every distinct observed result validated by TLC against Outputs(); "
                            "non-trivial = distinct (via, input, output) with output != input",
                       exhaustive=True)
